@@ -802,9 +802,32 @@ class Tables:
         if isinstance(v, ast.Lambda):
             return self._lambda_func(tmod, v, "_types.<lambda %s@%d>" % (tname, v.lineno))
         r = self.prog.resolve_expr(tmod, v)
+        if isinstance(r, tuple) and r[0] == "expr" and isinstance(r[2], ast.Call):
+            made = self._made_by_factory(r[1], r[2], tname)
+            if made is not None:
+                return made
         if not isinstance(r, Func):
             raise AnalysisError("type function %s unresolved" % norm(v))
         return r
+
+    def _made_by_factory(self, mod, call, tname):
+        """`is_array = _is("array")`: a predicate made by a package function that returns its one nested def.  It is represented as
+        that nested function; `made_by` keeps the factory and the call, so that an evaluator can bind the factory's parameters."""
+        F = self.prog.resolve_expr(mod, call.func)
+        if not isinstance(F, Func):
+            return None
+        inner = [x for x in F.nested.values() if isinstance(x, Func)]
+        rets = [n for n in walk_body(F) if isinstance(n, ast.Return)]
+        if len(inner) != 1 or not rets or not all(isinstance(x.value, ast.Name) and x.value.id == inner[0].name for x in rets):
+            return None
+        key = (mod.name, call.lineno, call.col_offset)
+        if key not in self.lambdas:
+            g = inner[0]
+            f = Func(g.mod, "%s[%s@%d]" % (g.qual, tname, call.lineno), g.node, cls=None, outer=F)
+            f.made_by = (F, call, mod)
+            self.lambdas[key] = f
+            self.prog.funcs.setdefault(f.qual, f)
+        return self.lambdas[key]
 
     # -- helpers --------------------------------------------------------------
     def keyword_funcs(self):
